@@ -96,11 +96,18 @@ TRewind ==
     /\ LET r == Rec[l]
        IN  CASE r.res = "ok"   -> /\ (r.mode = "height" => r.to <= r.req /\ r.tgt = r.to)
                                   /\ (r.mode = "cs" => r.to = r.req /\ r.tgt = r.to)
-                                  /\ (r.mode = "rewind_cs" => IF r.wiped THEN r.tgt = 0 /\ r.to = 0
-                                                                ELSE r.tgt = r.req /\ r.to >= r.req)
+                                  /\ (r.mode = "rewind_cs" /\ r.wiped => r.tgt = 0 /\ r.to = 0)
                                   /\ (r.mode # "rewind_cs" => ~r.wiped)
-                                  /\ ~Conflict(Cascade(tbl, r.to))
-                                  /\ Rewind(r.tgt, r.to, r.cut, "ok")
+                                  \* rewind_to_chain_state does not report the height it settled on, and the driver cannot infer it
+                                  \* from the blocks that are left (the wallet may keep blocks above the target, or -- the open C15
+                                  \* finding -- settle below it): it is any height that explains what the store shows afterwards
+                                  /\ IF r.mode = "rewind_cs" /\ ~r.wiped
+                                     THEN \E eff \in 0..Len(chain) :
+                                             /\ eff <= r.cut
+                                             /\ ~Conflict(Cascade(tbl, eff))
+                                             /\ Rewind(IF eff < r.req THEN eff ELSE r.req, eff, r.cut, "ok")
+                                     ELSE /\ ~Conflict(Cascade(tbl, r.to))
+                                          /\ Rewind(r.tgt, r.to, r.cut, "ok")
              [] r.res = "noop" -> /\ r.mode = "rewind_cs" /\ (scanned = {} \/ r.req >= SetMax(scanned))
                                   /\ RewindNoop
              [] r.res = "err"  -> IF r.errc = "invalid" THEN RewindNoop
